@@ -258,6 +258,19 @@ def translate(ctx):
     rc, out = vlib.sh([binp, "-repo", vlib.REPO, "-out", target, "-json", js], timeout=120)
     res = {"ok": rc == 0, "log": out[-800:], "rewritten_this_run": "generated-file: changed" in out}
     if rc == 0:
+        # is the compiled Generated_Tables.vo really built from this text? (file times cannot be trusted: other
+        # processes restore the committed copy with old time stamps) -- if not, force the rebuild
+        m = re.search(r"Definition gen_tables_id : N := (\d+)%N", open(target).read())
+        probe = ("From Coq Require Import NArith.\nFrom Scalibr Require Import Semantic.Generated_Tables.\n"
+                 "Goal gen_tables_id = %s%%N. Proof. reflexivity. Qed.\n" % (m.group(1) if m else "0"))
+        pd = os.path.join(vlib.BUILD, "cases", "C07-probe-%d" % os.getpid())
+        os.makedirs(pd, exist_ok=True)
+        open(os.path.join(pd, "probe.v"), "w").write(probe)
+        prc, pout = vlib.sh(["coqc", "-Q", os.path.join(vlib.COQ, "theories"), "Scalibr", "probe.v"], cwd=pd, timeout=120)
+        shutil.rmtree(pd, ignore_errors=True)
+        res["compiled_tables_were_stale"] = prc != 0
+        if prc != 0:
+            os.utime(target, None)
         res["tables"] = json.load(open(js))
         res["sha256"] = vlib.sha(open(target).read())
         rc2, diff = vlib.sh(["git", "diff", "--stat", "--", "coq/theories/Semantic/Generated_Tables.v"], cwd=vlib.VERIF)
